@@ -69,7 +69,7 @@ PRECONDITIONS = {
 }
 
 
-def run(ctx):
+def _run_rules(ctx):
     rep, f, cg = ctx.rep, ctx.facts, ctx.cg
     rep.trust('pk/callgraph.py reachability (trait calls expanded to all workspace impls; rayon max -> Ord::cmp added by '
               'model), documented panic conditions of rand::Uniform::new / gen_range / env_logger init')
@@ -625,6 +625,11 @@ def _closure_sites(ctx, path):
     return idx.get(ctx.facts.norm(path), [])
 
 
+def _reference_fns():
+    from ..facts import known_fns
+    return known_fns()
+
+
 def _const_values(ctx, b, tr, op, depth=0):
     """All values an operand can take if they are all compile-time constants ([ints]), else a string saying why not.
     Follows parameters to every workspace call site and closure captures to every place the closure is built."""
@@ -682,6 +687,13 @@ def _const_values(ctx, b, tr, op, depth=0):
                 r2 = _values_by_execution(ctx, cb, t, pi)
                 if r2 is not None:
                     r = r2
+            if isinstance(r, str) and r == 'no call sites found' and depth + 1 <= 6:
+                # a wrapper that only hands on its own parameter and is itself called from nowhere in the workspace (a public
+                # convenience whose internal users had it spliced in): no value reaches the operand through it
+                o2 = Tracer(cb).origin(t['args'][pi])
+                if o2['o'] == 'arg' and not o2['p'] and f.norm(cb.path) not in _reference_fns():
+                    n -= 1
+                    continue
             if isinstance(r, str):
                 return 'a caller (%s) passes a non-constant value (%s)' % (cb.path, r)
             vals += r
@@ -841,7 +853,95 @@ def _overflow(ctx, oa, b, cfg, tr, bi, t):
         flds = [oa.self_field(x) for x in (a, c)]
         if 'inner_steps' in flds:
             return 'table', ('stepping', sigk, 'loop_counter*inner_steps'), ''
+    if binop == 'Add' and (rhs_const1 or rhs_bool) and a.get('ty') in ('u64', 'usize', 'i64', 'isize', 'u128', 'i128'):
+        why = _pure_unit_counter(ctx, b, cfg, tr, a, ao)
+        if why:
+            ctx.rep.assume('a 64-bit counter that starts from a constant and only ever grows by one per executed step cannot wrap within '
+                           'any feasible run (2^63 steps): such increments are discharged under this assumption')
+            return 'discharged', 'unit-step-64-bit-counter', why
     return 'violation', '%s/%s' % (b.fn_name, sigk), 'integer overflow check that is neither discharged nor tabled'
+
+
+def _pure_unit_counter(ctx, b, cfg, tr, a, ao):
+    """The incremented value is a counter in the strict sense: a local (or a struct field) that is only ever given a constant or its
+    own value plus one (plus a bool).  Not: a value that comes from a parameter, a field set elsewhere, a call."""
+    from ..mirutil import copy_web
+
+    def step_of(rv, tr2, is_self):
+        """rv is `(self + 1).0` / `self + bool`: the result of a checked add whose left operand is the counter itself"""
+        if rv['r'] != 'use' or 'l' not in rv['a']:
+            return False
+        o2 = tr2.origin(rv['a'])
+        if o2['o'] != 'rvalue' or o2['rv'].get('r') != 'binop' or not o2['rv']['op'].startswith('Add'):
+            return False
+        lo, ro = tr2.origin(o2['rv']['a']), o2['rv']['b']
+        one = ro.get('k') == 'const' and const_value(ro) == 1
+        if not one and 'l' in ro:
+            r2 = tr2.origin(ro)
+            one = (r2['o'] == 'const' and const_value(r2['c']) == 1) or \
+                (r2['o'] == 'rvalue' and r2['rv'].get('r') == 'cast' and r2['rv']['a'].get('ty') == 'bool') or \
+                (r2['o'] == 'call' and r2['term']['args'] and r2['term']['args'][0].get('ty') == 'bool')
+        return one and is_self(lo)
+    if ao['o'] == 'local' and not ao.get('p'):
+        x = ao['l']
+        web = copy_web(b, tr, cfg.reach, x)
+        n_step = 0
+        for l2 in web:
+            for (dbi, si, kind, rv) in tr.defs.of(l2):
+                if kind != 'assign':
+                    return None
+                if rv['r'] == 'use' and rv['a'].get('k') == 'const':
+                    continue
+                if rv['r'] == 'use' and 'l' in rv['a'] and not rv['a']['p'] and rv['a']['l'] in web:
+                    continue
+                if step_of(rv, tr, lambda lo: lo['o'] == 'local' and lo.get('l') in web and not lo.get('p')):
+                    n_step += 1
+                    continue
+                return None
+        if n_step:
+            return 'local _%d takes only constants and its own value plus one' % x
+        return None
+    # a field counter: `self.hits += 1`
+    fp = [e for e in (a.get('p') or []) if isinstance(e, dict) and 'f' in e]
+    if 'l' in a and fp and fp[-1].get('of'):
+        adt = ctx.facts.norm(fp[-1]['of']).split('<')[0]
+        fname = fp[-1].get('n')
+        n_step = 0
+        for b2 in ctx.facts.bodies.values():
+            if b2.derived:
+                continue
+            tr2 = None
+            for bb in b2.blocks:
+                for st in bb['stmts']:
+                    if st['s'] != 'assign':
+                        continue
+                    rv = st['rv']
+                    if rv['r'] == 'aggr' and rv.get('agg') == 'adt' and ctx.facts.norm(str(rv.get('adt') or '')).split('<')[0] == adt:
+                        d = dict(zip(rv.get('fields') or [], rv['ops']))
+                        op = d.get(fname)
+                        if op is None:
+                            return None
+                        if op.get('k') != 'const':
+                            tr2 = tr2 or Tracer(b2)
+                            o3 = tr2.origin(op)
+                            # (a clone / functional update that copies the field of another value of the same type keeps a counter a counter)
+                            if not (o3['o'] == 'const' or (field_path(o3.get('p', []))[-1:] == [fname])):
+                                return None
+                        continue
+                    pl = st['place']
+                    pfl = [e for e in pl['p'] if isinstance(e, dict) and 'f' in e]
+                    if pfl and pfl[-1].get('n') == fname and ctx.facts.norm(pfl[-1].get('of') or '').split('<')[0] == adt and \
+                            pl['p'][-1] is pfl[-1]:
+                        tr2 = tr2 or Tracer(b2)
+                        if rv['r'] == 'use' and rv['a'].get('k') == 'const':
+                            continue
+                        if step_of(rv, tr2, lambda lo: field_path(lo.get('p', []))[-1:] == [fname]):
+                            n_step += 1
+                            continue
+                        return None
+        if n_step:
+            return 'field %s.%s is only ever set to a constant or to its own value plus one' % (adt.split('::')[-1], fname)
+    return None
 
 
 def _const_index_under_len_guard(b, cfg, tr, bi, t):
@@ -1774,3 +1874,13 @@ def _r4(ctx):
                           'the Result of %s is dropped or unwrapped instead of being propagated' % callee_name(t))
     rep.floor('R4', 'fallible calls in the binary', n_fall, 6)
     rep.sample('binary: %d fallible calls, all propagated; main returns %s' % (n_fall, rty))
+
+
+def run(ctx):
+    _run_rules(ctx)
+    # R5: setter fidelity of the builder (the amount of work requested is the one handed to build())
+    from .common import builder_setters
+    builder_setters(ctx, 'R5', ['steps', 'inner_steps', 'convergence'])
+    from .common import import_obligations
+    # both output files are written, each to its own path (C10.R3)
+    import_obligations(ctx, 'C10', 'R6', only_rules={'R3'}, floor=2, only_instances=lambda k: 'path' in k)
